@@ -34,7 +34,7 @@ func c16(c *Ctx) {
 	n := 0
 	for _, r := range acceptingReturns(st) {
 		n++
-		fs := facts.At(r, nil)
+		fs := acceptFacts(r)
 		R.Check("C16.ack-implies-commit", R.Key("C16.ack-implies-commit", shortFn(st), "return:nil"), c.rel(p.Pos(instrPos(r))), "StoreSignedVAA acknowledges (returns nil) only after the update transaction committed without error", facts.HasAtom(fs, facts.Term(upd)+" == nil"), "missing fact Update(...) == nil", facts.Atoms(fs)...)
 	}
 	R.Floor("C16.ack-implies-commit", n, 1)
@@ -61,7 +61,7 @@ func c16(c *Ctx) {
 	R.Check("C16.synchronous", "C16.synchronous/one-plain-set", c.rel(p.Pos(cf.Pos())), "the transaction performs exactly one plain txn.Set (no SetEntry/TTL)", set != nil && nwrites == 1, fmt.Sprintf("%d writes", nwrites))
 	if set != nil {
 		for _, r := range acceptingReturns(cf) {
-			fs := facts.At(r, nil)
+			fs := acceptFacts(r)
 			R.Check("C16.ack-implies-commit", R.Key("C16.ack-implies-commit", shortFn(cf), "return:nil"), c.rel(p.Pos(instrPos(r))), "the transaction closure reports success only when txn.Set succeeded", facts.HasAtom(fs, facts.Term(set)+" == nil"), "missing fact txn.Set(...) == nil", facts.Atoms(fs)...)
 		}
 		for _, r := range nonAcceptingReturns(cf) {
